@@ -1712,13 +1712,18 @@ class Models(object):
             elif dtype_target_kind(a) is not None:
                 kinds.append(dtype_target_kind(a))           # float / np.float64 / 'complex128' .. given as a type or a name
             else:
-                kinds.append(self.kind_of(a))
+                k = self.kind_of(a)
+                if k in ('f', 'i') and not isinstance(a, Arr) and ndarr.concrete_real(a) is None and not isinstance(a, (int, Fr)):
+                    # a symbolic scalar that looks real may be an element of a complex array (the model keeps a kind per
+                    # element, numpy one dtype per array): its dtype is not known
+                    k = '?'
+                kinds.append(k)
         if 'O' in kinds:
             return OBJECT
-        if '?' in kinds:
-            return DType('unknown', '?')
         if 'c' in kinds:
             return COMPLEX
+        if '?' in kinds:
+            return DType('unknown', '?')
         return FLOAT if 'f' in kinds else INT
 
     def kind_of(self, a):
